@@ -226,6 +226,7 @@ fn read_node(x: &Xot, n: Node, is_root: bool, check_adjacent: bool, budget: &mut
             }
         }
     }
+    accessor_agreement(x, n, vt, &attr_nodes, &ns_nodes, &kid_nodes)?;
     // (reverse_children is deliberately not used: with indextree 4.7.2 `children().rev()` never
     // ends for >= 2 children; traversal axes belong to C07, which is not claimed — DESIGN §7 O2)
     // recurse
@@ -274,6 +275,107 @@ fn read_node(x: &Xot, n: Node, is_root: bool, check_adjacent: bool, budget: &mut
         }
     }
     Ok(RNode { node: n, kind, ns, attrs, kids })
+}
+
+/// "A node handle denotes the same node with the same value" / "no accessor hands out a removed
+/// node": the convenience accessors must agree with `value()`, `parent()` and the child lists
+/// that the walk above is built on.
+fn accessor_agreement(x: &Xot, n: Node, vt: ValueType, attr_nodes: &[Node], ns_nodes: &[Node], kid_nodes: &[Node]) -> Result<(), Violation> {
+    let bad = |what: &str| Err(c04("accessor-disagrees", format!("{} of {:?} ({:?}) disagrees with value()/parent()/children()", what, n, vt)));
+    // typed views of the value
+    let flags = [
+        (x.is_document(n), ValueType::Document),
+        (x.is_element(n), ValueType::Element),
+        (x.is_text(n), ValueType::Text),
+        (x.is_comment(n), ValueType::Comment),
+        (x.is_processing_instruction(n), ValueType::ProcessingInstruction),
+        (x.is_attribute_node(n), ValueType::Attribute),
+        (x.is_namespace_node(n), ValueType::Namespace),
+    ];
+    for (f, t) in flags {
+        if f != (t == vt) {
+            return bad("an is_* predicate");
+        }
+    }
+    let ok = match x.value(n) {
+        Value::Document => x.element(n).is_none() && x.text(n).is_none(),
+        Value::Element(e) => x.element(n).map(|v| v.name()) == Some(e.name()) && x.get_element_name(n) == e.name() && x.text_str(n).is_none(),
+        Value::Text(t) => x.text_str(n) == Some(t.get()) && x.text(n).map(|v| v.get()) == Some(t.get()) && x.element(n).is_none() && x.comment_str(n).is_none(),
+        Value::Comment(c) => x.comment_str(n) == Some(c.get()) && x.comment(n).map(|v| v.get()) == Some(c.get()) && x.text_str(n).is_none(),
+        Value::ProcessingInstruction(pi) => {
+            x.processing_instruction(n).map(|v| (v.target(), v.data().map(|d| d.to_string()))) == Some((pi.target(), pi.data().map(|d| d.to_string()))) && x.text_str(n).is_none()
+        }
+        Value::Attribute(a) => x.attribute_node(n).map(|v| (v.name(), v.value().to_string())) == Some((a.name(), a.value().to_string())) && x.namespace_node(n).is_none(),
+        Value::Namespace(ns) => x.namespace_node(n).map(|v| (v.prefix(), v.namespace())) == Some((ns.prefix(), ns.namespace())) && x.attribute_node(n).is_none(),
+    };
+    if !ok {
+        return bad("a typed value accessor");
+    }
+    // position helpers
+    let parent = x.parent(n);
+    let parent_is_doc = parent.map_or(false, |p| x.value_type(p) == ValueType::Document);
+    if x.has_document_parent(n) != parent_is_doc || x.is_document_element(n) != (parent_is_doc && vt == ValueType::Element) {
+        return bad("has_document_parent / is_document_element");
+    }
+    let lim = attr_nodes.len() + 2;
+    if x.attribute_nodes(n).take(lim).collect::<Vec<_>>() != attr_nodes {
+        return bad("attribute_nodes");
+    }
+    for (i, c) in kid_nodes.iter().enumerate() {
+        if x.child_index(n, *c) != Some(i) {
+            return bad("child_index of a child");
+        }
+    }
+    for c in attr_nodes.iter().chain(ns_nodes.iter()) {
+        if x.child_index(n, *c).is_some() {
+            return bad("child_index of an attribute / namespace node");
+        }
+    }
+    if vt == ValueType::Element {
+        for c in attr_nodes {
+            if let Value::Attribute(a) = x.value(*c) {
+                if x.get_attribute(n, a.name()) != Some(a.value()) || x.attributes(n).get_node(a.name()) != Some(*c) {
+                    return bad("get_attribute / attributes().get_node");
+                }
+            }
+        }
+        for c in ns_nodes {
+            if let Value::Namespace(d) = x.value(*c) {
+                if x.get_namespace(n, d.prefix()) != Some(d.namespace()) || x.namespaces(n).get_node(d.prefix()) != Some(*c) {
+                    return bad("get_namespace / namespaces().get_node");
+                }
+            }
+        }
+        let decls = x.namespace_declarations(n);
+        let want: Vec<_> = ns_nodes.iter().filter_map(|c| if let Value::Namespace(d) = x.value(*c) { Some((d.prefix(), d.namespace())) } else { None }).collect();
+        if decls != want {
+            return bad("namespace_declarations");
+        }
+    }
+    if vt == ValueType::Document {
+        let first_elem = kid_nodes.iter().copied().find(|c| x.value_type(*c) == ValueType::Element);
+        match (x.document_element(n), first_elem) {
+            (Ok(a), Some(b)) if a == b => {}
+            (Err(_), None) => {}
+            _ => return bad("document_element"),
+        }
+    } else if x.document_element(n).is_ok() {
+        return bad("document_element (of a non-document)");
+    }
+    // root / top_element: bounded walks over the parent chain
+    let chain: Vec<Node> = x.ancestors(n).take(NODE_LIMIT + 1).collect();
+    if chain.len() <= NODE_LIMIT {
+        if x.root(n) != *chain.last().unwrap() {
+            return bad("root");
+        }
+        if vt != ValueType::Document {
+            let top = chain.iter().copied().filter(|a| x.value_type(*a) == ValueType::Element).last().unwrap_or(n);
+            if x.top_element(n) != top {
+                return bad("top_element");
+            }
+        }
+    }
+    Ok(())
 }
 
 #[derive(Clone, Copy, PartialEq, Eq, Debug)]
